@@ -61,4 +61,7 @@ PROPS = {
                 technique="every loop over a set-derived collection is proved against a commutative fold (order independence in real arithmetic); permutation / hash-seed twin on real systems"),
 }
 
+PROPS["C01"] = dict(jobs=None, obl=None, bounded="c01", level="other", design="4 C01/C15",
+                    technique="bounded stand-in (whole-history property, no per-function contract states it): live system after every single edit and sampled/all pairs of edits vs a system built from the edited specification, on 7 sharing topologies; local clauses (frames, read order, chain contracts) are proved under C18/C08")
+
 NOT_BUILT = {}
